@@ -14,6 +14,10 @@ use std::sync::{Mutex, OnceLock};
 
 /// Marker payload of an injected callback panic.
 pub struct InjectedPanic;
+/// Marker payload: one operation invoked an absurd number of user callbacks (a loop that never ends
+/// but keeps calling the caller's comparison; found long before the wall-clock watchdog would fire).
+pub struct CallbackBudget;
+pub const CALLBACK_BUDGET: u32 = 20_000_000;
 
 #[derive(Clone, Copy, Debug, PartialEq, Eq)]
 pub struct LoggedKey {
@@ -38,6 +42,10 @@ thread_local! {
 pub fn callback() {
     CB_COUNT.with(|c| {
         let n = c.get();
+        if n >= CALLBACK_BUDGET {
+            c.set(0);
+            panic::panic_any(CallbackBudget);
+        }
         c.set(n + 1);
         if n == CB_INJECT.with(|i| i.get()) {
             CB_INJECT.with(|i| i.set(u32::MAX));
@@ -247,6 +255,10 @@ pub fn install_panic_hook() {
     }
     panic::set_hook(Box::new(|info| {
         if info.payload().downcast_ref::<InjectedPanic>().is_some() {
+            return;
+        }
+        if info.payload().downcast_ref::<CallbackBudget>().is_some() {
+            LAST_PANIC.with(|p| *p.borrow_mut() = format!("hang: the operation invoked more than {CALLBACK_BUDGET} user callbacks (non-terminating loop)"));
             return;
         }
         let msg = if let Some(s) = info.payload().downcast_ref::<&str>() {
